@@ -291,6 +291,15 @@ pub fn run(rep: &mut Report, backend: Bk, thorough: bool) {
         if dec(&l.a, &l.gid, &up.encrypted_data, &reference).map(|p| p == data).unwrap_or(false) == false {
             rep.finding(format!("C17|sender-cannot-decrypt-later"), format!("the sender cannot decrypt its own file {k} epochs later"), json!({"epochs_later": k, "backend": format!("{backend:?}")}));
         }
+        // the sender again, after the echo of its announcing message came back k epochs later
+        {
+            let a2 = l.a.fork();
+            let echo = result_kind(&a2.process(&announce));
+            rep.case(&format!("history|sender-after-late-echo|{k}|{echo}"));
+            if dec(&a2, &l.gid, &up.encrypted_data, &reference).map(|p| p == data).unwrap_or(false) == false {
+                rep.finding("C17|sender-cannot-decrypt-after-its-own-late-echo".into(), format!("the sender processes the echo of its announcing message {k} epochs after sending it ({echo}) and can no longer decrypt its own file"), json!({"epochs_later": k, "echo": echo, "backend": format!("{backend:?}")}));
+            }
+        }
         // the other member: announcing message processed after p of the k commits
         for p in 0..=k {
             let b = l.b.fork();
